@@ -43,7 +43,7 @@ def is_alias_ix(ix):
 def returns_numpy_view(st):
     """Program steps whose result is a numpy view of the array's own buffer."""
     if st["op"] == "getitem" and not st.get("dst"):
-        return st["ix"][0] in ("int", "npint")
+        return st["ix"][0] in ("int", "npint", "int0d")
     if st["op"] == "read":
         return st.get("f") in ("iter", "ravel")
     return st["op"] == "to_numpy"
